@@ -8,6 +8,22 @@ CLAIMED = {
          "Every (writer, option vector, stream parameters, PCM) case of a finite, explicitly listed space is executed on the real crate and compared with the identity oracle; the space is enumerated completely (all sequences over a 6-value alphabet per bit depth up to length L, all option vectors within d deviations, all front-end pairs, a fixed signal-family grid), so within those bounds the claim is a coverage statement, not a sample.",
          "Trusts: rustc, the harness encode/decode wrappers, determinism of the crate (violations replayed twice). Not covered: sample values outside the alphabets/grid, block sizes other than those listed for sample-exhaustive sets.",
          "§4 C01"),
+ "C06": ("explicit-state BFS to a fixpoint over read/fill/consume/seek histories on clones of the real seekable readers, exact-state de-duplication through the verif-hooks accessor, reference = cursor over the PCM",
+         "All reachable states of each seekable reader under a fixed op alphabet are visited for every file of a seek corpus (channels × depth × seek-table shape × declared/unknown length); every transition is compared with a reference cursor. Fixpoint reached ⇒ every history over the alphabet is covered, of any length.",
+         "Trusts the hook to expose all mutable reader state (source position, current sample, decoded frame, buffered remainder, consumed count). Arguments outside the alphabet are not explored.",
+         "§4 C06"),
+ "C07": ("explicit-state BFS over consumption histories on the real non-seekable readers × exhaustive enumeration of source segmentations (every cut point, pairs in thorough) with drain scripts; reference = PCM cursor",
+         "Every consumption history over the alphabet (to a fixpoint, incl. unlimited repeated calls after end-of-stream) and every single split point of the underlying byte source are executed on the real readers and compared with the reference PCM in each front-end's representation.",
+         "Segmentations with >2 cut points only via 1-byte and 7-byte sources; read sizes limited to the alphabet.",
+         "§4 C07"),
+ "C08": ("exhaustive enumeration of write-call histories (all compositions of a small input; all ≤2/3-cut histories incl. zero-length calls and mid-sample cuts; all trailing partial-frame lengths) on the four real writer front-ends; oracle = byte identity with the single-call file",
+         "All 2^17 (thorough 2^20) ways of splitting a small input into write calls and all ≤2(3)-cut histories of multi-block inputs are executed for every writer front-end and compared byte-for-byte with the one-call reference; reference hashes are compared across 16 worker processes.",
+         "PCM content is fixed (position-identifying); values are C01's dimension.",
+         "§4 C08"),
+ "C15": ("full-product parameter grids and exhaustive ≤2-cut under/exact/over-fill write histories executed on the real constructors/writers in both build profiles; 'works' judged by the independent decoder",
+         "The complete boundary grid of constructor arguments (≈80k calls per writer), every Options setter boundary value, every documented value alone and every cross-axis pair, and every ≤2-cut history that under-, exactly- or over-fills a declared length are executed; nothing is sampled.",
+         "Trusts refdec (self-bound to libFLAC fixtures). Triples of documented values only via C01's lattice. Huge declared totals use no_seektable() outside a representative sub-grid (cost).",
+         "§4 C15"),
 }
 NOT_YET = "check not built yet in this revision of /verif (planned in DESIGN.md §4); not claimed until it runs green on the unchanged tree"
 def main():
